@@ -211,6 +211,8 @@ func c04Chain(c *fw.Case) {
 	proto := sut.Proto()
 	proto.KeyAlgorithms = append(proto.KeyAlgorithms, "P-521")
 	proto.SignatureAlgorithms = append(proto.SignatureAlgorithms, "ES512")
+	// the nonce size is a protocol parameter: small and large values
+	proto.NonceSize = fw.Pick(r, []uint64{16, 16, 1, 32, 33, 48, 64, 128})
 	st := sut.SharedStack(proto)
 	// anchored operations are judged without the request-time validators: a quarter of the chains is read by a parser whose
 	// anchor-origin and anchor-time validators refuse everything - reveal values and commitments are reported all the same
